@@ -95,7 +95,12 @@ CeilLog2(x) == IF x <= 1 THEN 0 ELSE 1 + CeilLog2((x + 1) \div 2)
 \* C13: a woken child is polled within a number of collection polls linear in the population
 WaitBound(s) == WaitMul * s.peak + WaitAdd
 \* C13: child polls inside one collection poll are bounded
-WorkBound(s) == 256 * (s.peak + 2)
+\* (counted since the call began or since the last completion inside it: a call may go on for as long as children
+\*  complete - joins, ordered collections, for_each - but between two completions it visits every group at most once,
+\*  with a budget of 61 child polls each; the unbounded kinds have at most log2(peak) + 2 groups: a new group doubles the capacity
+\*  of the last one and is created only when that one is full)
+Groups(s) == IF s.kind \in {"fu", "fo", "mu"} THEN CeilLog2(s.peak + 1) + 3 ELSE 1
+WorkBound(s) == 62 * Groups(s)
 \* C18: allocations of the unbounded kinds over a whole history
 AllocBound(s) == 4 * CeilLog2(s.peak + 1) + 8
 
@@ -212,12 +217,12 @@ StepCout(s, e) ==
   ELSE
     CASE e.resp = "P" -> s
       [] e.resp \in {"R", "X"} ->
-           Bump([s EXCEPT !.ch[c].st = "fin", !.tok = @ \cup {<<c, 0>>}, !.qn = 0, !.act = TRUE,
+           Bump([s EXCEPT !.ch[c].st = "fin", !.tok = @ \cup {<<c, 0>>}, !.qn = 0, !.act = TRUE, !.work = 0,
                           !.errs = IF e.resp = "X" THEN @ \cup {<<c, 0>>} ELSE @,
                           !.firstErr = IF e.resp = "X" /\ @ = 0 THEN c ELSE @])
       [] e.resp = "I" ->
-           Bump([s EXCEPT !.ch[c].nt = TRUE, !.ch[c].ob = TRUE, !.tok = @ \cup {<<c, e.k>>}, !.qn = 0, !.act = TRUE])
-      [] e.resp = "E" -> [s EXCEPT !.ch[c].st = "fin", !.qn = 0, !.act = TRUE]
+           Bump([s EXCEPT !.ch[c].nt = TRUE, !.ch[c].ob = TRUE, !.tok = @ \cup {<<c, e.k>>}, !.qn = 0, !.act = TRUE, !.work = 0])
+      [] e.resp = "E" -> [s EXCEPT !.ch[c].st = "fin", !.qn = 0, !.act = TRUE, !.work = 0]
       [] OTHER -> s
 
 StepCdrop(s, e) ==
